@@ -606,7 +606,7 @@ class Optimizer(object):
         if hasattr(self, "_last_X") and strategy in ["topk", "boltzmann"]:
             if strategy == "topk":
                 idx = np.argsort(self._last_values)[:n_points]
-                next_samples = self.space.inverse_transform(self._last_X[idx])
+                next_samples = self._decode_candidates(self._last_X[idx])
 
                 # to track sampled values and avoid duplicates
                 self.sampled.extend(next_samples)
@@ -655,12 +655,12 @@ class Optimizer(object):
                     else:
                         idx.append(new_idx)
                         self.sampled.append(
-                            self.space.inverse_transform(
+                            self._decode_candidates(
                                 self._last_X[new_idx].reshape(1, -1)
                             )[0]
                         )
 
-                return self.space.inverse_transform(self._last_X[idx])
+                return self._decode_candidates(self._last_X[idx])
             else:
                 raise ValueError(
                     f"'{strategy}' is not a valid multi-point acquisition strategy!"
@@ -755,6 +755,17 @@ class Optimizer(object):
         self.cache_ = {(n_points, strategy): X}  # cache_ the result
 
         return X
+
+    def _decode_candidates(self, Xt):
+        """Map transformed candidates back to the original space.
+
+        The round trip through the transformed space is not exact (e.g., for log-uniform
+        dimensions), inactive dimensions are therefore set to their canonical value again.
+        """
+        return [
+            self.space.deactivate_inactive_dimensions(x)
+            for x in self.space.inverse_transform(Xt)
+        ]
 
     def _filter_duplicated(self, samples):
         """Filter out duplicated values in ``samples``.
